@@ -228,7 +228,7 @@ def run_instance(args):
     t0 = time.time()
     res = dict(name=params.get('name'), family=params.get('family', params.get('name')), params=_jsonable(params),
                violations=[], unreproduced=[], xval_ok=0, xval_mismatch=[], xval_thin=0, samples=[], error=None,
-               reached=0, signatures=set())
+               reached=0, signatures=set(), cvc5=dict(asked=0), cvc5_disagree=[])
     try:
         hmod = importlib.import_module(hname)
         ms_sym, ms_real = get_modsets(hmod, params, mutate)
@@ -325,7 +325,16 @@ def run_instance(args):
                 return False
             if failed is not None:
                 return False
-            # path holds: concrete cross-validation on the real code
+            # path holds for z3: every k-th proved obligation of the instance is re-decided by cvc5 on the SMT-LIB2 text
+            k2 = opts.get('cvc5_every', 25)
+            if k2 and conds and (res['reached'] - 1) % k2 == 0 and res['cvc5']['asked'] < opts.get('cvc5_max', 40):
+                r2 = E.second_opinion(joint, opts.get('cvc5_timeout_ms', 10000))
+                if r2 != 'trivial':
+                    res['cvc5']['asked'] += 1
+                    res['cvc5'][r2] = res['cvc5'].get(r2, 0) + 1
+                    if r2 == 'sat':
+                        res['cvc5_disagree'].append(dict(inputs=model_inputs(E.get_model(), ctx), choices=choices))
+            # concrete cross-validation on the real code
             if xval:
                 rm = E.robust_model()
                 thin = rm is None
@@ -371,6 +380,7 @@ def run_instance(args):
 
         E.explore(body)
         res.update(E.stats())
+        res['cvc5_s'] = round(getattr(E, 't2', 0.0), 2)
         res['unsupported'] = unsupported[:5]
         res['n_unsupported'] = len(unsupported)
     except BaseException as ex:
@@ -450,6 +460,7 @@ def run_check(hname, tier, seed, nproc=None, only=None, verbose=False):
                branch_decisions=0, concretised_decisions=0, xval_ok=0, xval_thin=0, distinct_paths=0, reached=0,
                n_unsupported=0)
     samples = []
+    cv = {}
     for r in main_res:
         for k in tot:
             tot[k] += r.get(k, 0) or 0
@@ -462,6 +473,12 @@ def run_check(hname, tier, seed, nproc=None, only=None, verbose=False):
         if r.get('xval_mismatch'):
             harness_errors.append(f"{r['name']}: model/implementation mismatch on a robust witness: "
                                   + json.dumps(r['xval_mismatch'][0])[:600])
+        for k, v in (r.get('cvc5') or {}).items():
+            cv[k] = cv.get(k, 0) + v
+        cv['solver_s'] = round(cv.get('solver_s', 0.0) + (r.get('cvc5_s') or 0.0), 2)
+        if r.get('cvc5_disagree'):
+            harness_errors.append(f"{r['name']}: SOLVER DISAGREEMENT: z3 answered unsat, cvc5 sat on path AND NOT oracle: "
+                                  + json.dumps(r['cvc5_disagree'][0])[:600])
         done = r.get('paths', 0) + r.get('unknown_paths', 0)
         if done and r.get('unknown_paths', 0) > max(0.02 * done, 0) and r.get('unknown_paths', 0) > opts.get('unknown_ok', 0):
             harness_errors.append(f"{r['name']}: {r['unknown_paths']} of {done} paths inconclusive "
@@ -525,6 +542,9 @@ def run_check(hname, tier, seed, nproc=None, only=None, verbose=False):
             concretised_decisions=tot['concretised_decisions'], branch_decisions=tot['branch_decisions'],
             xval_boundary_thin=tot['xval_thin'], paths_reaching_assertion=tot['reached'],
             stubs=getattr(hmod, 'STUBS', []), selftests=selftests,
+            cvc5_crosscheck=dict(cv, note="every k-th proved path obligation (path AND NOT oracle, SMT-LIB2 text from z3) re-decided "
+                                          "by cvc5 1.4.0; 'unsat' = agrees, 'sat' would be a harness error, 'unknown' = cvc5 gave up "
+                                          "within its time limit (typically nonlinear), 'unparsed' = text not accepted"),
             known_findings_hit=[fid for fid in known_hits], harness_errors=harness_errors[:10],
             per_instance=[dict(name=r['name'], paths=r.get('paths'), queries=r.get('queries'),
                                solver_s=r.get('solver_s'), wall_s=r.get('wall_s'), unknown=r.get('unknown_paths'))
@@ -542,7 +562,8 @@ def run_check(hname, tier, seed, nproc=None, only=None, verbose=False):
     print(f"{prop} [{tier}] instances={len(main_res)} paths={tot['paths']} reached={tot['reached']} "
           f"queries={tot['queries']} solver_s={tot['solver_s']:.1f} xval={tot['xval_ok']} thin={tot['xval_thin']} "
           f"unknown={tot['unknown_paths']} realised={tot['realised_paths']} wall={wall:.1f}s "
-          f"violations={len(new_viol)} known={sum(n for _, n in known_hits.values())}")
+          f"violations={len(new_viol)} known={sum(n for _, n in known_hits.values())} "
+          f"cvc5={cv.get('unsat', 0)}/{cv.get('asked', 0)}")
     for l in out_lines:
         print(l)
     if new_viol:
